@@ -21,7 +21,8 @@ def _E():
 
 # --------------------------------------------------------------------------- rounding (A2)
 def round_nd(eng, x, nd):
-    """round(x, nd): some r with 10^nd * r integer and |r - x| <= half a unit (both neighbours at ties)."""
+    """round(x, nd) = RND_nd(x): a deterministic function with  10^nd * RND(x) integer,
+    |RND(x) - x| <= half a unit (either neighbour at a tie) and RND(-x) == -RND(x)  (A2)."""
     scale = 10 ** nd
     if is_conc_num(x.t):
         fx = Fraction(x.t) * scale
@@ -29,12 +30,15 @@ def round_nd(eng, x, nd):
         if fx - lo != Fraction(1, 2):
             r = lo if fx - lo < Fraction(1, 2) else lo + 1
             return SV(REAL, Fraction(r, scale))
-    k = z3.Int(fresh_name("rnd"))
+    f = z3.Function("RND%d" % nd, z3.RealSort(), z3.RealSort())
     xt = zreal(x.t)
-    r = z3.ToReal(k) / scale
+    k = z3.Int(fresh_name("rnd"))
+    r = f(xt)
     half = z3.RealVal(1) / (2 * scale)
-    eng.path.assume(z3.And(r - xt <= half, xt - r <= half), check=False)
-    eng.path.ghost.setdefault("roundings", []).append((k, xt, scale))
+    fact = z3.And(r == z3.ToReal(k) / scale, r - xt <= half, xt - r <= half, f(-xt) == -r)
+    if eng.spec_mode and eng.path is not None:
+        eng.path.ghost.setdefault("round_facts", []).append(fact)
+    eng.path.assume(fact, check=False)
     return SV(REAL, r)
 
 
@@ -113,6 +117,9 @@ def call_builtin(eng, name, args, kwargs, line, fr):
     if name == "str":
         v = args[0] if args else None
         r = bm.opaque_string(eng, "str")
+        if isinstance(v, SV) and isinstance(v.sort, Opt) and v.sort.inner in (REAL, INT) and not eng.spec_mode:
+            if not eng.branch(v.t[0], "str-none"):
+                v = v.t[1]
         if isinstance(v, SV) and v.sort in (REAL, INT):
             r.aux = v  # str(number): remembered so that Decimal(str(x)) is x (A1)
         elif isinstance(v, SV) and v.sort in (ATOM, CHARS):
@@ -403,6 +410,8 @@ def call_value_method(eng, base, name, args, kwargs, line, fr):
                 return NONE_V
         raise EngineLimit("method %s on %s" % (name, base.kind))
     s = base.sort
+    if s == ATOM and name in ("format", "join", "lower", "upper", "strip"):
+        return bm.opaque_string(eng, name)
     if isinstance(s, ListOf):
         elem = s.elem
         if name == "append":
